@@ -171,6 +171,9 @@ type harnessState struct {
 
 	forever chan struct{} // never closed
 
+	lastKey    atomic.Value // key of the message of the most recent Update
+	afterFired int32
+
 	filterDrop, filterPause, filterPanic map[string]bool
 }
 
@@ -358,6 +361,7 @@ type pFakeExec struct {
 	h      *harnessState
 	idx    int
 	ok     bool
+	pause  bool
 	read   int
 	mu     sync.Mutex
 	stdin  io.Reader
@@ -391,6 +395,9 @@ func (f *pFakeExec) Run() error {
 			got = pToInts(r.b)
 		case <-time.After(100 * time.Millisecond):
 		}
+	}
+	if f.pause {
+		h.pause("exec:" + strconv.Itoa(f.idx))
 	}
 	time.Sleep(20 * time.Millisecond)
 	h.log(pEvent{Ev: "ExecRunEnd", ID: pInt(f.idx), Outlen: pInt(h.out.Len()), Read: &got})
@@ -478,7 +485,7 @@ func (h *harnessState) buildMsg(ms *pMsgSpec) tea.Msg {
 		return tea.Sequence(cs...)()
 	case "exec":
 		idx := int(atomic.AddInt64(&h.execN, 1) - 1)
-		fe := &pFakeExec{h: h, idx: idx, ok: ms.OK == nil || *ms.OK, read: ms.Read}
+		fe := &pFakeExec{h: h, idx: idx, ok: ms.OK == nil || *ms.OK, read: ms.Read, pause: ms.Pause}
 		var cb tea.ExecCallback
 		if ms.CB {
 			cb = func(err error) tea.Msg {
@@ -604,6 +611,7 @@ func (m pModel) Update(msg tea.Msg) (tea.Model, tea.Cmd) {
 			break
 		}
 	}
+	h.lastKey.Store(key)
 	h.runCtl(ctl, "update:"+key)
 	var cmd tea.Cmd
 	if ctl != nil {
@@ -626,6 +634,14 @@ func (m pModel) View() string {
 	}
 	if v.PanicAt != nil && *v.PanicAt == k {
 		panic("scenario panic " + label)
+	}
+	if lk, _ := h.lastKey.Load().(string); lk != "" && (lk == v.PauseAfter || lk == v.PanicAfter) && atomic.CompareAndSwapInt32(&h.afterFired, 0, 1) {
+		if lk == v.PauseAfter {
+			h.pause("view:after:" + lk)
+		}
+		if lk == v.PanicAfter {
+			panic("scenario panic view:after:" + lk)
+		}
 	}
 	s := fmt.Sprintf("view %d\n", m.ver)
 	if v.Text != nil {
